@@ -330,7 +330,12 @@ func runC14(c *core.Ctx, res *core.Result) {
 	feat["primary_rotated"] = fmt.Sprint(rotated)
 	// the primary has stopped writing and the link is up: bounded convergence
 	for i, rn := range reps {
-		took, diff := waitConverged(pn.eng, rn.eng, 60*time.Second)
+		bound := 60 * time.Second
+		if workload == "huge_chunk" {
+			// every poll of every session re-reads and re-serializes tens of megabytes: progress is slow by design
+			bound = 150 * time.Second
+		}
+		took, diff := waitConverged(pn.eng, rn.eng, bound)
 		res.Count("convergence_waits", 1)
 		if diff != "" {
 			st := rn.mgr.Status()
@@ -340,8 +345,8 @@ func runC14(c *core.Ctx, res *core.Result) {
 					fmt.Fprintf(&sb, "%s=%v ", k, v)
 				}
 			}
-			res.Violate("replica_did_not_converge", fmt.Sprintf("%s: replica %d did not reach the primary's state: no progress for 60s after the primary stopped writing (%d log entries, %d transactions, rotated=%v): %s\nreplica status: %s",
-				desc, i, entries, txs, rotated, diff, sb.String()), feat)
+			res.Violate("replica_did_not_converge", fmt.Sprintf("%s: replica %d did not reach the primary's state: no progress for %s after the primary stopped writing (%d log entries, %d transactions, rotated=%v): %s\nreplica status: %s\ngoroutines inside pkg/replication:\n%s",
+				desc, i, bound, entries, txs, rotated, diff, sb.String(), replicationStacks()), feat)
 			return
 		}
 		res.Count("convergence_ms", took.Milliseconds())
